@@ -206,7 +206,9 @@ def flatten (segs : List (Nat × List Raw)) : List Styled :=
 
 /-- `Print`: the nested loops over segments and characters flattened into one list (the only
 non-local exit, `return col, row`, leaves both loops).  Returns the `SetCell` calls in order and
-the returned `(col,row)`. -/
+the returned `(col,row)`.  After the re-measure comes the fit test (F111 repair): a cluster that
+does not fit in the rest of the row goes on the next row, or nowhere (`continue`) if it is wider
+than the window. -/
 def printGo (lib : Lib) (rm : Bool) (cols rows : Int) : List Styled → Int → Int → List Op × Int × Int
   | [], col, row => ([], col, row)
   | (st, ch0) :: rest, col, row =>
@@ -214,11 +216,14 @@ def printGo (lib : Lib) (rm : Bool) (cols rows : Int) : List Styled → Int → 
       else if row > rows then ([], col, row)
       else
         let ch := measured lib rm ch0
-        let op : Op := { col := col, row := row, cell := { g := ch.g, w := ch.w, st := st } }
-        let col' := col + ch.w
-        let r := if col' ≥ cols then printGo lib rm cols rows rest 0 (row + 1)
-                 else printGo lib rm cols rows rest col' row
-        (op :: r.1, r.2)
+        if col + ch.w > cols ∧ ch.w > cols then printGo lib rm cols rows rest col row
+        else
+          let p : Int × Int := if col + ch.w > cols then (0, row + 1) else (col, row)
+          let op : Op := { col := p.1, row := p.2, cell := { g := ch.g, w := ch.w, st := st } }
+          let col' := p.1 + ch.w
+          let r := if col' ≥ cols then printGo lib rm cols rows rest 0 (p.2 + 1)
+                   else printGo lib rm cols rows rest col' p.2
+          (op :: r.1, r.2)
 
 def printOps (lib : Lib) (rm : Bool) (win : Win) (segs : List (Nat × List Raw)) : List Op × Int × Int :=
   printGo lib rm win.width win.height (flatten segs) 0 0
@@ -265,16 +270,18 @@ def println (lib : Lib) (rm : Bool) (win : Win) (s : Screen) (row : Int) (segs :
 (so that the second loop advances by it).  It mirrors the source: `false` while the first loop
 assigns to its loop-local copy (finding F34), `true` once it assigns to `chars[i]`. -/
 
-/-- Second loop of Wrap over one line segment. -/
+/-- Second loop of Wrap over one line segment (with the same fit test as `Print`). -/
 def wrapChars (lib : Lib) (cols : Int) (st : Nat) : List Chr → Int → Int → List Op × Int × Int
   | [], col, row => ([], col, row)
   | ch :: rest, col, row =>
       if lib.trailBrk ch.g then wrapChars lib cols st rest 0 (row + 1)
+      else if col + ch.w > cols ∧ ch.w > cols then wrapChars lib cols st rest col row
       else
-        let op : Op := { col := col, row := row, cell := { g := ch.g, w := ch.w, st := st } }
-        let col' := col + ch.w
-        let r := if col' ≥ cols then wrapChars lib cols st rest 0 (row + 1)
-                 else wrapChars lib cols st rest col' row
+        let p : Int × Int := if col + ch.w > cols then (0, row + 1) else (col, row)
+        let op : Op := { col := p.1, row := p.2, cell := { g := ch.g, w := ch.w, st := st } }
+        let col' := p.1 + ch.w
+        let r := if col' ≥ cols then wrapChars lib cols st rest 0 (p.2 + 1)
+                 else wrapChars lib cols st rest col' p.2
         (op :: r.1, r.2)
 
 def sumW : List Chr → Int
